@@ -23,7 +23,9 @@ VALUES2 = {"connect": 11.5, "read": 12.5, "write": 13.5, "pool": 14.5}
 OPTIONS = ("absent", "none", "zero", "value")
 KEYS = ("connect", "read", "write", "pool")
 SHAPES = ("get", "post3", "stream")
-KIND_LIST = [k for k in KINDS if k not in ("direct-h2-fallback-h1", "forward-auth")]
+from ..topo import REFUSALS  # noqa: E402
+
+KIND_LIST = [k for k in KINDS if k not in ("direct-h2-fallback-h1", "forward-auth") and k not in REFUSALS]
 
 
 def tdict(combo, values):
@@ -183,3 +185,97 @@ PROP = Prop(
                  "0 is passed through as a value; SimNet does not interpret timeouts of ops that can complete"],
     explanation="Exhaustive over the stated matrix in both tiers.",
 )
+
+
+# ----------------------------------------------------------------------------- pool timeout on the virtual clock (concurrent asyncio driver)
+
+from hypothesis import strategies as st  # noqa: E402
+
+from ..aio import AioRun, Caller  # noqa: E402
+
+
+@st.composite
+def pool_timeout_scenarios(draw):
+    n_hold = draw(st.sampled_from([1, 1, 2]))
+    waiters = []
+    for i in range(draw(st.integers(1, 4))):
+        waiters.append({"p": draw(st.sampled_from([0, 0, 0.5, 1.0, 2.5, 7.0, None])), "host": draw(st.sampled_from(["a.test", "a.test", "b.test"]))})
+    return {"kind": draw(st.sampled_from(["direct-h1", "direct-h1", "direct-tls-h1", "forward", "tunnel-h1", "socks-h1"])), "holders": n_hold, "waiters": waiters,
+            "advances": draw(st.lists(st.sampled_from([0.3, 0.7, 1.1, 2.3, 5.0]), max_size=6)),
+            "choices": draw(st.lists(st.integers(0, 9), max_size=60))}
+
+
+def execute_pool_timeout(sc) -> Outcome:
+    pool_cfg, cfg, scheme = topo(sc["kind"], pool_extra={"max_connections": sc["holders"]})
+    world = World(peer_factory=cfg.peer_factory)
+    callers = []
+    for i in range(sc["holders"]):
+        c = Caller(len(callers), [{"spec": {"method": "GET", "url": f"{scheme}://a.test/t/h{i}"}, "tok": f"h{i}", "mode": "hold"}])
+        c.start_first = True
+        callers.append(c)
+    for j, w in enumerate(sc["waiters"]):
+        spec = {"method": "GET", "url": f"{scheme}://{w['host']}/t/w{j}"}
+        if w["p"] is not None:
+            spec["timeouts"] = {"pool": w["p"]}
+        callers.append(Caller(len(callers), [{"spec": spec, "tok": f"w{j}", "mode": "read_all"}]))
+    final = {}
+
+    async def epilogue(r):
+        final["repr"] = repr(r.pool)
+        await r.pool.aclose()
+
+    r = AioRun(world, pool_cfg, callers, choices=sc["choices"], advances=sc["advances"], epilogue=epilogue)
+    r.run()
+    vio = []
+    what = f"{sc['kind']} max_connections={sc['holders']} waiters={[w['p'] for w in sc['waiters']]}"
+    tags = [sc["kind"]]
+    close_call = False
+    waited = False
+    for j, w in enumerate(sc["waiters"]):
+        c = callers[sc["holders"] + j]
+        if not c.results:
+            continue
+        out = c.results[0]
+        p = w["p"]
+        t0 = out["t0"]
+        first_op = next((op for op in world.trace if op["actor"] == c.id), None)
+        issued = r.first_issue.get(c.id)
+        if out["exc"] is not None and out["exc"]["name"] == "PoolTimeout":
+            tags.append("pool-timeout")
+            if p is None:
+                vio.append(V(P, "pool-timeout-without-limit", f"{what}: waiter {j} has no pool timeout but raised PoolTimeout", conn=sc["kind"]))
+            else:
+                dt = out["t1"] - t0
+                if dt < p - 1e-3:
+                    vio.append(V(P, "pool-timeout-early", f"{what}: waiter {j} raised PoolTimeout after {dt:.6f}s of virtual time, its pool timeout is {p}", conn=sc["kind"]))
+                elif dt > p + 1e-3:
+                    vio.append(V(P, "pool-timeout-late", f"{what}: waiter {j} raised PoolTimeout after {dt:.6f}s of virtual time, its pool timeout is {p}", conn=sc["kind"]))
+                if first_op is not None:
+                    vio.append(V(P, "pool-timeout-after-network", f"{what}: waiter {j} raised PoolTimeout although it had started network operations", conn=sc["kind"]))
+        elif out["exc"] is not None:
+            vio.append(V(P, "request-failed", f"{what}: waiter {j}: {out['exc']['type']}: {out['exc']['msg']}", conn=sc["kind"]))
+        else:
+            if issued is not None and p is not None:
+                wait = issued - t0
+                if wait > 1e-3:
+                    waited = True
+                if wait > p + 1e-3:
+                    vio.append(V(P, "served-after-deadline", f"{what}: waiter {j} was given a connection {wait:.6f}s after it asked, later than its pool timeout {p}", conn=sc["kind"]))
+                if abs(wait - p) < 0.5 and wait > 0:
+                    close_call = True
+    if r.deadlock is not None:
+        vio.append(V(P, "deadlock", f"{what}: {r.deadlock}", conn=sc["kind"]))
+    if final.get("repr") and "Requests: 0 active, 0 queued" not in final["repr"] and r.deadlock is None:
+        vio.append(V(P, "request-not-forgotten", f"{what}: every caller has returned but the pool reports {final['repr']}", conn=sc["kind"]))
+    if any(w["p"] == 0 for w in sc["waiters"]):
+        tags.append("zero-pool-timeout")
+    nontrivial = "pool-timeout" in tags or waited
+    return Outcome(vio[:5], sorted(set(tags)), nontrivial, info={"outcomes": [(c.results[0].get("status") or c.results[0]["exc"]["name"]) if c.results else None for c in callers],
+                                                                 "final": final.get("repr")})
+
+
+PROP.layers.append(Layer("pool-timeout", strategy=pool_timeout_scenarios, execute=execute_pool_timeout, budget={"quick": 1200, "thorough": 50000}))
+PROP.rule += (" pool-timeout layer: 1-2 holders keep every connection of the pool (max_connections = number of holders) until the scheduler releases them; 1-4 waiters "
+              "with pool timeout in {0, 0.5, 1, 2.5, 7, None}; virtual-clock advances of 0.3-5 s, timer firings, releases and starts are scheduler choices. "
+              "Oracle: PoolTimeout exactly at t0+p (+-1 ms of virtual time), never after a network op of that request, a served waiter got its connection no "
+              "later than t0+p, the pool forgets every finished request. Non-trivial: a waiter timed out or actually waited.")
